@@ -213,4 +213,29 @@ theorem fromSdp_toSdp (T : AddrText) (c : Cand) (h : WfCand T c) :
       · subst hty; simp [scanTcpType, scanRelated, tcpTypeOfStr_tcpTypeStr]
       · simp [hty, scanTcpType, scanRelated, tcpTypeOfStr_tcpTypeStr, parseUInt_showDec _ _ ha.2.1, ha.2.2]
 
+theorem fromSdp_with_extension (T : AddrText) (c : Cand) (k v : Str) (h : WfCand T c)
+    (hnone : c.tcpType = none ∧ c.related = none) (hk : IsTok k) (hv : IsTok v) (hne : k ≠ "tcptype".toList) :
+    fromSdp T (joinSp (toParts T c ++ [k, v])) = .ok c := by
+  have htoks : ∀ t ∈ toParts T c ++ [k, v], IsTok t := by
+    intro t ht
+    rcases List.mem_append.mp ht with ht | ht
+    · exact toParts_tokens T c h t ht
+    · simp only [List.mem_cons, List.not_mem_nil, or_false] at ht
+      rcases ht with rfl | rfl
+      · exact hk
+      · exact hv
+  unfold fromSdp
+  rw [splitWs_joinSp _ htoks]
+  obtain ⟨fo, pr, ad, ty, tr, tt, re, co⟩ := c
+  obtain ⟨h1, h2⟩ := hnone
+  simp only at h1 h2
+  subst h1; subst h2
+  simp only [toParts, List.cons_append, List.nil_append, List.append_nil]
+  simp only [trimCandidatePrefix_id _ h.foundation_noprefix, parseUInt_showDec _ _ h.component_le,
+    parseUInt_showDec _ _ h.priority_le, parseUInt_showDec _ _ h.addr_ok.2.1, h.addr_ok.2.2,
+    typOfStr_typStr, h.transport_lower]
+  simp [scanTcpType, scanRelated]
+  intro _ hk'
+  exact absurd hk' (by simpa using hne)
+
 end RtcModel.IceCand
